@@ -60,8 +60,11 @@ func connName(c *broker.Client) string {
 	if c == nil {
 		return "?"
 	}
-	if e, ok := c.Conn().(*End); ok {
+	switch e := c.Conn().(type) {
+	case *End:
 		return e.Name
+	case *RealConn:
+		return e.e.Name
 	}
 	return "?"
 }
